@@ -420,3 +420,4 @@ RULES = [
 
 from . import common as _common_purity
 RULES = RULES + _common_purity.purity_rules("C09")
+RULES = RULES + _common_purity.bundle_rules("C09")
